@@ -62,9 +62,10 @@ def run(tier):
                     continue
                 if x["entry"] == "validateCompiled":
                     calls.append({"entry": "validateCompiled", "pkey": x["prof"], "dkey": x["doc"],
-                                  "shared": 0 if x["prof"] == "pOk" else 1})
+                                  "shared": 0 if x["prof"] == "pOk" else 1, "cfg": ["default", "alt"][len(calls) % 2]})
                 else:
-                    calls.append({"entry": x["entry"], "pkey": x["prof"], "dkey": "" if x["entry"] == "compile" else x["doc"]})
+                    calls.append({"entry": x["entry"], "pkey": x["prof"], "dkey": "" if x["entry"] == "compile" else x["doc"],
+                                  "cfg": ["alt", "default"][(len(calls) + len(gor)) % 2]})
             gor.append(calls)
         mult = [1, 1, 4][i % 3] if tier == "thorough" else [1, 4][i % 2]
         cases.append({"id": "c10-%03d" % i, "profiles": PROFILES, "docs": DOCS, "dclasses": DCLASS, "pclasses": PCLASS,
@@ -88,7 +89,7 @@ def run(tier):
         o = byid[rid]
         gv = o.get("genvars") or []
         dup = any(len(set(v)) != len(v) for v in gv)
-        V.disagree("interference: %s" % ("duplicate/gapped identifier counter values" if dup or any(sorted(v) != list(range(1, len(v) + 1)) for v in gv)
+        V.disagree("interference: %s" % ("one compilation was handed the same generated identifier twice" if dup
                                          else "a concurrent call returned a different result than alone"),
                    {"case": {k: bycase[rid][k] for k in ("goroutines", "rounds", "yield")},
                     "observed": [(x["entry"], x.get("pkey"), x.get("dkey"), x["kind"], x.get("sha", "")) for x in o["calls"]][:80]})
